@@ -16,6 +16,28 @@ LEVEL = "proof"
 KEY0 = jax.random.PRNGKey(0)
 
 
+def _fresh():
+    """JAX caches the jaxprs of scan / while / cond bodies by function identity (bound methods and module-level functions compare equal across calls).
+    Worker processes are reused across tasks and a task mixes stub-traced proofs with native runs, so a body traced under the sampler stubs would be
+    replayed inside a later native jit (and vice versa).  Every switch between the two modes starts from empty caches."""
+    jax.clear_caches()
+
+
+def _prove(ctx, *a, **kw):
+    _fresh()
+    try:
+        return ctx.prove(*a, **kw)
+    finally:
+        _fresh()
+
+
+def _any(bools):
+    r = jnp.asarray(False)
+    for b in bools:
+        r = r | b
+    return r
+
+
 def _pairwise_distinct(flat):
     """flat: 1-D int array; one bool per unordered pair"""
     n = flat.shape[0]
@@ -24,6 +46,7 @@ def _pairwise_distinct(flat):
 
 def _not_constant(ctx, name, gen, leaf, targets=(), keys=8):
     """existential: exhibit two keys with different outputs (native run of the real generator)"""
+    _fresh()
     outs = [np.asarray(leaf(gen(jax.random.PRNGKey(s)))) for s in range(keys)]
     wit = next(((0, s) for s in range(1, keys) if not np.array_equal(outs[0], outs[s])), None)
     ctx.structural(f"{name}/C10.generator_depends_on_the_key", wit is not None, "native witness pair (two keys, different instances)",
@@ -46,7 +69,7 @@ def run_tsp(ctx, n):
                 "C10.trajectory_empty": s.trajectory == -1,
                 "canary.first_city_in_lower_half": c[0, 0] < 0.5}
 
-    ctx.prove(name, (KEY0,), ens, targets=[UniformGenerator.__call__])
+    _prove(ctx, name, (KEY0,), ens, targets=[UniformGenerator.__call__])
     _not_constant(ctx, name, gen, lambda s: s.coordinates, [UniformGenerator.__call__])
 
 
@@ -66,7 +89,7 @@ def run_cvrp(ctx, n, cap, dmax):
                 "C10.only_depot_visited": s.visited_mask == (jnp.arange(n + 1) == 0),
                 "canary.first_customer_demand_is_one": d[1] == 1}
 
-    ctx.prove(name, (KEY0,), ens, targets=[UniformGenerator.__call__])
+    _prove(ctx, name, (KEY0,), ens, targets=[UniformGenerator.__call__])
     _not_constant(ctx, name, gen, lambda s: (s.coordinates, s.demands)[0], [UniformGenerator.__call__])
 
 
@@ -90,7 +113,7 @@ def run_multicvrp(ctx, nc, nv):
                 "C10.no_penalty_at_depot": (s.coeffs.early[0] == 0) & (s.coeffs.late[0] == 0),
                 "canary.first_customer_demand_zero": d[1] == 0}
 
-    ctx.prove(name, (KEY0,), ens, targets=[UniformRandomGenerator.__call__, U.generate_uniform_random_problem])
+    _prove(ctx, name, (KEY0,), ens, targets=[UniformRandomGenerator.__call__, U.generate_uniform_random_problem])
     _not_constant(ctx, name, gen, lambda s: s.nodes.coordinates, [UniformRandomGenerator.__call__])
 
 
@@ -106,7 +129,7 @@ def run_knapsack(ctx, n):
                 "C10.nothing_packed": ~s.packed_items, "C10.full_budget": s.remaining_budget == 2.0,
                 "canary.first_weight_in_lower_half": s.weights[0] < 0.5}
 
-    ctx.prove(name, (KEY0,), ens, targets=[RandomGenerator.__call__])
+    _prove(ctx, name, (KEY0,), ens, targets=[RandomGenerator.__call__])
     _not_constant(ctx, name, gen, lambda s: s.weights, [RandomGenerator.__call__])
 
 
@@ -120,7 +143,7 @@ def run_graph_coloring(ctx, n):
         return {"C10.adjacency_symmetric": adj == adj.T, "C10.no_self_loops": ~jnp.diagonal(adj),
                 "canary.graph_has_no_edge": ~jnp.any(adj)}
 
-    ctx.prove(name, (KEY0,), ens, targets=[RandomGenerator.__call__])
+    _prove(ctx, name, (KEY0,), ens, targets=[RandomGenerator.__call__])
     _not_constant(ctx, name, gen, lambda a: a, [RandomGenerator.__call__], keys=16)
 
 
@@ -144,7 +167,7 @@ def run_minesweeper(ctx, R, C, M):
 
     ok_shape = tuple(jax.eval_shape(gen, KEY0).flat_mine_locations.shape) == (M,)
     ctx.structural(f"{name}/C10.number_of_mine_slots_is_num_mines", ok_shape, "jax.eval_shape", targets=[UniformSamplingGenerator.generate_flat_mine_locations])
-    ctx.prove(name, (KEY0,), ens, targets=[UniformSamplingGenerator.__call__, U.create_flat_mine_locations])
+    _prove(ctx, name, (KEY0,), ens, targets=[UniformSamplingGenerator.__call__, U.create_flat_mine_locations])
     _not_constant(ctx, name, gen, lambda s: s.flat_mine_locations, [U.create_flat_mine_locations], keys=16)
 
 
@@ -167,7 +190,7 @@ def run_jobshop(ctx, J, Mc, O, D):
                 "C10.step_count_zero": s.step_count == 0,
                 "canary.every_job_has_max_ops": jnp.all(mask)}
 
-    ctx.prove(name, (KEY0,), ens, targets=[RandomGenerator.__call__])
+    _prove(ctx, name, (KEY0,), ens, targets=[RandomGenerator.__call__])
     _not_constant(ctx, name, gen, lambda s: s.ops_durations, [RandomGenerator.__call__], keys=16)
 
 
@@ -191,7 +214,7 @@ def run_snake(ctx, R, C):
                 "C10.length_one_step_zero": (s.length == 1) & (s.step_count == 0),
                 "canary.head_in_first_row": hr == 0}
 
-    ctx.prove(name, (KEY0,), ens, targets=[Snake.reset, Snake._sample_fruit_coord])
+    _prove(ctx, name, (KEY0,), ens, targets=[Snake.reset, Snake._sample_fruit_coord])
     _not_constant(ctx, name, lambda k: env.reset(k)[0], lambda s: jnp.stack([s.head_position.row, s.head_position.col, s.fruit_position.row, s.fruit_position.col]),
                   [Snake.reset], keys=16)
 
@@ -209,7 +232,7 @@ def run_2048(ctx, n):
                 "C10.score_and_step_count_zero": (s.step_count == 0) & (s.score == 0),
                 "canary.tile_in_first_cell": b[0, 0] != 0}
 
-    ctx.prove(name, (KEY0,), ens, targets=[Game2048.reset, Game2048._generate_board, Game2048._add_random_cell])
+    _prove(ctx, name, (KEY0,), ens, targets=[Game2048.reset, Game2048._generate_board, Game2048._add_random_cell])
     _not_constant(ctx, name, lambda k: env.reset(k)[0], lambda s: s.board, [Game2048.reset], keys=16)
 
 
@@ -232,7 +255,7 @@ def run_tetris(ctx, R, C):
                 "C10.score_and_step_count_zero": (s.step_count == 0) & (s.score == 0),
                 "canary.first_piece_is_piece_zero": s.tetromino_index == 0}
 
-    ctx.prove(name, (KEY0,), ens, targets=[Tetris.reset, U.sample_tetromino_list], merge_over=8)
+    _prove(ctx, name, (KEY0,), ens, targets=[Tetris.reset, U.sample_tetromino_list], merge_over=8)
     ok = all(int(np.asarray(T[i, r]).sum()) == 4 for i in range(nT) for r in range(T.shape[1]))
     ctx.structural(f"{name}/C10.every_piece_has_four_cells", ok, "native evaluation of the constant piece table", targets=[Tetris.__init__])
     _not_constant(ctx, name, lambda k: env.reset(k)[0], lambda s: s.tetromino_index, [Tetris.reset], keys=16)
@@ -263,17 +286,19 @@ def run_connector_uniform(ctx, G, A):
                 "C10.agent_ids_and_step_count": (s.agents.id == jnp.arange(A)) & (s.step_count == 0),
                 "canary.first_head_in_first_row": st[0, 0] == 0}
 
-    ctx.prove(name, (KEY0,), ens, targets=[UniformRandomGenerator.__call__])
+    _prove(ctx, name, (KEY0,), ens, targets=[UniformRandomGenerator.__call__])
     _not_constant(ctx, name, gen, lambda s: s.grid, [UniformRandomGenerator.__call__], keys=16)
 
 
-def run_lbf(ctx, G, A, F, L=2, coop=False, merge_over=None, nkeys=500):
+LBF_FOCUS = ("C10.agents_inside_grid", "C10.no_agent_on_a_food_cell")
+
+
+def run_lbf(ctx, G, A, F, L=2, coop=False, merge_over=None, nkeys=500, focus=None):
     from jumanji.environments.routing.lbf.generator import RandomGenerator
     gen = RandomGenerator(G, A, F, G, max_agent_level=L, force_coop=coop)
     name = f"LBF.RandomGenerator[g{G}a{A}f{F}l{L}{'coop' if coop else ''}]"
 
-    def ens(key):
-        s = gen(key)
+    def clauses(s):
         ap, fp = s.agents.position, s.food_items.position
         aflat = ap[:, 0] * G + ap[:, 1]
         fflat = fp[:, 0] * G + fp[:, 1]
@@ -291,10 +316,28 @@ def run_lbf(ctx, G, A, F, L=2, coop=False, merge_over=None, nkeys=500):
                 [jnp.abs(fp[i, 0] - fp[j, 0]) + jnp.abs(fp[i, 1] - fp[j, 1]) > 1 for i in range(F) for j in range(i + 1, F)])
         return out
 
-    ctx.prove(name, (KEY0,), ens, targets=[RandomGenerator.__call__, RandomGenerator.sample_food, RandomGenerator.sample_agents, RandomGenerator.sample_levels],
-              merge_over=merge_over)
+    if focus:
+        # big adversarial configuration: `sample_food` (whose sampler sits inside a scan, so its outcomes cannot be pinned per iteration in a replay) is a
+        # CONTRACT BOUNDARY: its result is a symbolic array constrained by its own post-condition (proved above at the small configurations)
+        def req(key, food):
+            return {"sample_food.not_on_the_edge": (food >= 1) & (food <= G - 2),
+                    "sample_food.pairwise_distinct_and_not_adjacent": jnp.stack(
+                        [jnp.abs(food[i, 0] - food[j, 0]) + jnp.abs(food[i, 1] - food[j, 1]) > 1 for i in range(F) for j in range(i + 1, F)]) if F > 1 else jnp.asarray(True)}
+
+        def ens_b(key, food):
+            with K.with_attr(gen, "sample_food", lambda k: food):
+                s = gen(key)
+            out = clauses(s)
+            out["C10.food_is_where_sample_food_put_it"] = s.food_items.position == food
+            return {k: v for k, v in out.items() if k.startswith("canary.") or k in focus or k == "C10.food_is_where_sample_food_put_it"}
+
+        _prove(ctx, name, (KEY0, jnp.ones((F, 2), jnp.int32)), ens_b, req, targets=[RandomGenerator.__call__, RandomGenerator.sample_agents], merge_over=merge_over)
+    else:
+        _prove(ctx, name, (KEY0,), lambda key: clauses(gen(key)),
+                  targets=[RandomGenerator.__call__, RandomGenerator.sample_food, RandomGenerator.sample_agents, RandomGenerator.sample_levels], merge_over=merge_over)
     _not_constant(ctx, name, gen, lambda s: s.agents.position, [RandomGenerator.__call__], keys=16)
     if nkeys:   # the same clauses on real keys (bounded)
+        _fresh()
         st = jax.jit(jax.vmap(gen))(jax.vmap(jax.random.PRNGKey)(jnp.arange(nkeys)))
         ap, fp = np.asarray(st.agents.position), np.asarray(st.food_items.position)
         af, ff = ap[:, :, 0] * G + ap[:, :, 1], fp[:, :, 0] * G + fp[:, :, 1]
@@ -341,7 +384,7 @@ def run_rware(ctx, cfg):
             out["C10.request_queue_pairwise_distinct"] = _pairwise_distinct(q)
         return out
 
-    ctx.prove(name, (KEY0,), ens, targets=[RandomGenerator.__call__, US.spawn_random_entities, US.place_entities_on_grid], merge_over=64)
+    _prove(ctx, name, (KEY0,), ens, targets=[RandomGenerator.__call__, US.spawn_random_entities, US.place_entities_on_grid], merge_over=64)
     shelf_grid = np.zeros((H, W), np.int64)
     for i, (a, b) in enumerate(spos):
         shelf_grid[a, b] = i + 1
@@ -375,7 +418,7 @@ def run_maze_gen(ctx, R, C):
                 "C10.step_count_zero": s.step_count == 0,
                 "canary.start_at_origin": (ar == 0) & (ac == 0)}
 
-    ctx.prove(name, (KEY0, walls0), ens, req, targets=[MG.RandomGenerator.__call__], merge_over=64,
+    _prove(ctx, name, (KEY0, walls0), ens, req, targets=[MG.RandomGenerator.__call__], merge_over=64,
               note="generate_maze is a contract boundary: its result is a symbolic maze with >= 2 free cells")
     # the boundary is called with (width=num_cols, height=num_rows): checked on the abstract value of the real call
     shp = tuple(jax.eval_shape(lambda k: MG.maze_generation.generate_maze(gen.num_cols, gen.num_rows, k), KEY0).shape)
@@ -407,7 +450,7 @@ def run_cleaner_gen(ctx, R, C, A):
                 "C10.step_count_zero": s.step_count == 0,
                 "canary.grid_has_no_wall": jnp.all(s.grid != WALL)}
 
-    ctx.prove(name, (KEY0, maze0), ens, req, targets=[CG.RandomGenerator.__call__, CG.RandomGenerator._adapt_values], merge_over=64,
+    _prove(ctx, name, (KEY0, maze0), ens, req, targets=[CG.RandomGenerator.__call__, CG.RandomGenerator._adapt_values], merge_over=64,
               note="generate_maze is a contract boundary: its result is a symbolic maze")
     ctx.structural(f"{name}/C10.grid_shape_is_rows_by_cols", tuple(jax.eval_shape(gen, KEY0).grid.shape) == (R, C), "jax.eval_shape", targets=[CG.RandomGenerator.__call__])
     _not_constant(ctx, name, gen, lambda s: s.grid, [CG.RandomGenerator.__call__])
@@ -437,7 +480,7 @@ def run_stack(ctx, N, Fe):
                 "C10.pushed_stack_is_not_empty": ~ST.empty_stack(s2),
                 "canary.push_leaves_data_unchanged": jnp.all(s2.data == data)}
 
-    ctx.prove(name + ".push", (data0, jnp.int32(0), el0), ens_push, lambda d, i, e: {"room_left": (i >= 0) & (i < N)},
+    _prove(ctx, name + ".push", (data0, jnp.int32(0), el0), ens_push, lambda d, i, e: {"room_left": (i >= 0) & (i < N)},
               targets=[ST.stack_push, ST.stack_pop, ST.empty_stack], use_stubs=False, merge_over=16)
 
     def ens_pop(data, idx):
@@ -450,7 +493,7 @@ def run_stack(ctx, N, Fe):
                 "C10.empty_iff_size_zero": ST.empty_stack(s2) == (idx == 1),
                 "canary.pop_returns_row_zero": jnp.all(top == data[0])}
 
-    ctx.prove(name + ".pop", (data0, jnp.int32(1)), ens_pop, lambda d, i: {"not_empty": (i >= 1) & (i <= N)},
+    _prove(ctx, name + ".pop", (data0, jnp.int32(1)), ens_pop, lambda d, i: {"not_empty": (i >= 1) & (i <= N)},
               targets=[ST.stack_pop, ST.stack_push, ST.empty_stack], use_stubs=False, merge_over=16)
     s0 = ST.create_stack(N, Fe)
     ok = bool(ST.empty_stack(s0)) and tuple(s0.data.shape) == (N, Fe) and int(s0.insertion_index) == 0 and jnp.issubdtype(s0.data.dtype, jnp.integer)
@@ -465,13 +508,13 @@ def run_random_parity(ctx):
         r = MZ.random_even(key, m)
         return {"C10.random_even_in_range": (r >= 0) & (r < m), "C10.random_even_is_even": r % 2 == 0, "canary.random_even_is_zero": r == 0}
 
-    ctx.prove(name + ".random_even", (KEY0, jnp.int32(3)), ens_even, lambda k, m: {"max_val_positive": (m >= 1) & (m <= 1 << 20)}, targets=[MZ.random_even])
+    _prove(ctx, name + ".random_even", (KEY0, jnp.int32(3)), ens_even, lambda k, m: {"max_val_positive": (m >= 1) & (m <= 1 << 20)}, targets=[MZ.random_even])
 
     def ens_odd(key, m):
         r = MZ.random_odd(key, m)
         return {"C10.random_odd_in_range": (r >= 1) & (r < m), "C10.random_odd_is_odd": r % 2 == 1, "canary.random_odd_is_one": r == 1}
 
-    ctx.prove(name + ".random_odd", (KEY0, jnp.int32(3)), ens_odd, lambda k, m: {"max_val_at_least_two": (m >= 2) & (m <= 1 << 20)}, targets=[MZ.random_odd])
+    _prove(ctx, name + ".random_odd", (KEY0, jnp.int32(3)), ens_odd, lambda k, m: {"max_val_at_least_two": (m >= 2) & (m <= 1 << 20)}, targets=[MZ.random_odd])
 
 
 def run_split(ctx, R, C):
@@ -529,9 +572,36 @@ def run_split(ctx, R, C):
 
     for horizontal in (True, False):
         fn, ens = make(horizontal)
-        ctx.prove(f"maze_utils.{fn.__name__}[{R}x{C}]", (KEY0, maze0, data0, jnp.int32(1), ch0), ens, req,
+        _prove(ctx, f"maze_utils.{fn.__name__}[{R}x{C}]", (KEY0, maze0, data0, jnp.int32(1), ch0), ens, req,
                   targets=[fn, MZ.draw_vertical_wall if horizontal else MZ.draw_horizontal_wall, MZ.create_chamber, MZ.random_odd, MZ.random_even],
                   while_bound=max(R, C) + 1, merge_over=8)
+
+
+def run_maze_unwound(ctx, R, C):
+    """generate_maze, COMPLETELY unwound (every while loop up to a bound, with unwinding assertions that are obligations themselves), with the
+    reachability fix-point written in the formula: for every key the maze is fully connected.  Also discharges what the Maze / Cleaner generator
+    proofs assume about the maze (values, origin free, at least two free cells)."""
+    from jumanji.environments.commons.maze_utils import maze_generation as MZ
+    cells = ((R + 1) // 2) * ((C + 1) // 2)
+
+    def ens(key):
+        maze = MZ.generate_maze(C, R, key)      # (width, height, key) as the Maze / Cleaner generators call it
+        free = maze == MZ.EMPTY
+        reach = jnp.zeros((R, C), bool).at[0, 0].set(True) & free
+        Z = jnp.zeros((R, C), bool)
+        for _ in range(R * C):
+            nb = Z.at[1:, :].set(reach[:-1, :]) | Z.at[:-1, :].set(reach[1:, :]) | Z.at[:, 1:].set(reach[:, :-1]) | Z.at[:, :-1].set(reach[:, 1:])
+            reach = reach | (nb & free)
+        return {"C10.maze_values_are_EMPTY_or_WALL": jnp.all((maze == MZ.EMPTY) | (maze == MZ.WALL)),
+                "C10.origin_cell_free": free[0, 0],
+                "C10.every_free_cell_reachable_from_the_origin": jnp.all(reach == free),
+                "C10.at_least_two_free_cells": jnp.sum(free) >= 2,
+                "C10.maze_shape_is_rows_by_cols": jnp.asarray(tuple(maze.shape) == (R, C)),
+                "canary.maze_has_no_wall": jnp.all(free)}
+
+    _prove(ctx, f"maze_utils.generate_maze[{R}x{C}]", (KEY0,), ens, targets=[MZ.generate_maze, MZ.split_next_chamber, MZ.split_horizontally, MZ.split_vertically, MZ.create_chamber,
+                                                                         MZ.draw_horizontal_wall, MZ.draw_vertical_wall, MZ.create_chambers_stack],
+              while_bound=max(cells, R, C) + 1, workers=4, note="complete unwinding: the `unwind@` side obligations prove the bound is never exceeded")
 
 
 def _flood(free, r0, c0):
@@ -553,6 +623,7 @@ def _flood(free, r0, c0):
 
 
 def run_maze_connectivity(ctx, sizes, nkeys):
+    _fresh()
     from jumanji.environments.routing.maze.generator import RandomGenerator as MGen
     from jumanji.environments.routing.cleaner.generator import RandomGenerator as CGen
     from jumanji.environments.routing.cleaner.constants import WALL
@@ -587,7 +658,7 @@ def run_maze_connectivity(ctx, sizes, nkeys):
 # ======================================================================================================================
 # 4. FlatPack random generator: the blocks exactly tile the grid; finite generators (databases, toy, dummy): native exhaustive checks
 # ======================================================================================================================
-def _flatpack_tiling_clauses(blocks, solved, N, R, C):
+def _flatpack_tiling_clauses(blocks, solved, extracted, N, R, C):
     """blocks: (N,3,3) as returned by the generator (shuffled, rotated); solved: (R,C) the generator's own solved grid, used as the WITNESS of the
     existential 'there is a placement of every block (rotation, top-left offset inside the action space) such that every cell is covered exactly once'.
     Sound for any witness: if every cell of `solved` carries one block number in 1..N, every number is carried by exactly one returned block, and each
@@ -595,7 +666,6 @@ def _flatpack_tiling_clauses(blocks, solved, N, R, C):
     rows, cols = jnp.arange(R)[:, None], jnp.arange(C)[None, :]
     ident = jnp.stack([jnp.max(blocks[i]) for i in range(N)])          # the number carried by block slot i
     uniform = jnp.stack([jnp.all((blocks[i] == 0) | (blocks[i] == ident[i])) for i in range(N)])
-    each_once = jnp.stack([jnp.sum(ident == n) == 1 for n in range(1, N + 1)])
     placed = []
     for i in range(N):
         region = solved == ident[i]
@@ -609,23 +679,29 @@ def _flatpack_tiling_clauses(blocks, solved, N, R, C):
         placed.append(ok)
     return {"C10.solved_grid_cells_carry_one_block_number_each": (solved >= 1) & (solved <= N),
             "C10.each_block_is_one_piece_number": uniform & (ident >= 1) & (ident <= N),
-            "C10.each_block_number_returned_exactly_once": each_once,
+            # 'every block number is returned exactly once', decomposed: extracted block j carries number j+1, and the returned blocks are a permutation of them
+            "C10.extracted_block_j_carries_exactly_the_number_j_plus_1": jnp.stack(
+                [jnp.all((extracted[j] == 0) | (extracted[j] == j + 1)) & jnp.any(extracted[j] == j + 1) for j in range(N)]),
+            "C10.every_extracted_block_is_returned": jnp.stack([_any([jnp.all(blocks[i] == extracted[j]) for i in range(N)]) for j in range(N)]),
+            "C10.every_returned_block_is_an_extracted_block": jnp.stack([_any([jnp.all(blocks[i] == extracted[j]) for j in range(N)]) for i in range(N)]),
             "C10.each_block_rotated_and_placed_covers_exactly_its_region": jnp.stack(placed)}
 
 
 def _capture_solved_grid(gen, key):
-    """runs the REAL generator; the `init` of its block-extraction scan (the solved grid) is recorded on the way (nothing is replaced)"""
+    """runs the REAL generator; the `init` of its block-extraction scan (the solved grid) and that scan's result (the extracted, rotated, not yet shuffled
+    blocks) are recorded on the way (nothing is replaced).  Returns (state, solved grid, extracted blocks)."""
     real_scan = jax.lax.scan
     seen = {}
 
     def scan(f, init, xs=None, *a, **kw):
+        out = real_scan(f, init, xs, *a, **kw)
         if getattr(f, "__name__", "") == "_extract_block":
-            seen["solved"] = init[0]
-        return real_scan(f, init, xs, *a, **kw)
+            seen["solved"], seen["extracted"] = init[0], out[1]
+        return out
 
     with K.with_attr(jax.lax, "scan", scan):
         st = gen(key)
-    return st, seen["solved"]
+    return st, seen["solved"], seen["extracted"]
 
 
 def run_flatpack(ctx, nr, nc):
@@ -635,13 +711,13 @@ def run_flatpack(ctx, nr, nc):
     name = f"FlatPack.RandomFlatPackGenerator[{nr}x{nc}]"
 
     def ens(key):
-        st, solved = _capture_solved_grid(gen, key)
-        out = _flatpack_tiling_clauses(st.blocks, solved, N, R, C)
+        st, solved, extracted = _capture_solved_grid(gen, key)
+        out = _flatpack_tiling_clauses(st.blocks, solved, extracted, N, R, C)
         out["C10.grid_empty_nothing_placed"] = jnp.all(st.grid == 0) & jnp.all(~st.placed_blocks) & (tuple(st.grid.shape) == (R, C))
         out["canary.first_block_is_piece_one"] = jnp.max(st.blocks[0]) == 1
         return out
 
-    ctx.prove(name, (KEY0,), ens, targets=[G.__call__, G._extract_block, G._crop_nonzero, G._select_col_interlocks, G._select_row_interlocks, G._select_sides,
+    _prove(ctx, name, (KEY0,), ens, targets=[G.__call__, G._extract_block, G._crop_nonzero, G._select_col_interlocks, G._select_row_interlocks, G._select_sides,
                                            G._fill_grid_columns, G._fill_grid_rows], merge_over=64, workers=4)
     _not_constant(ctx, name, gen, lambda s: s.blocks, [G.__call__], keys=8)
 
@@ -681,6 +757,7 @@ def _exact_cover(blocks, R, C):
 
 
 def run_flatpack_bounded(ctx, sizes, nkeys):
+    _fresh()
     from jumanji.environments.packing.flat_pack.generator import RandomFlatPackGenerator as G
     for (nr, nc) in sizes:
         R, C = 2 * nr + 1, 2 * nc + 1
@@ -755,6 +832,7 @@ def _sudoku_solve(board):
 
 
 def run_sudoku(ctx):
+    _fresh()
     import os
     from jumanji.environments.logic.sudoku import generator as SG, constants as SC, data
     from jumanji.environments import Sudoku
@@ -795,7 +873,7 @@ def run_sudoku(ctx):
             hit = hit | jnp.all(st.board == boards[i] - 1)
         return {"C10.generated_board_is_a_database_puzzle_unchanged": hit, "canary.always_the_first_puzzle": jnp.all(st.board == boards[0] - 1)}
 
-    ctx.prove(f"Sudoku.DatabaseGenerator[symbolic database of {nB}]", (KEY0, jnp.zeros((nB, 9, 9), jnp.int32)), ens,
+    _prove(ctx, f"Sudoku.DatabaseGenerator[symbolic database of {nB}]", (KEY0, jnp.zeros((nB, 9, 9), jnp.int32)), ens,
               lambda k, b: {"digits": (b >= 0) & (b <= 9)}, targets=[SG.DatabaseGenerator.__call__])
     _not_constant(ctx, "Sudoku.DatabaseGenerator[default]", gen, lambda s: s.board, [SG.DatabaseGenerator.__call__], keys=8)
 
@@ -827,6 +905,7 @@ def _binpack_instance_ok(gen, key):
 
 def run_toys(ctx):
     """finite / constant generators: native check of their advertised invariants"""
+    _fresh()
     nat = "native evaluation (constant instance)"
     # --- FlatPack toys
     from jumanji.environments.packing.flat_pack import generator as FG
@@ -908,6 +987,7 @@ def _exact_cover_no_rotation(blocks, R, C):
 
 
 def run_binpack_bounded(ctx, cfgs, nkeys):
+    _fresh()
     from jumanji.environments.packing.bin_pack.generator import RandomGenerator as BG
     for (ni, ne, same) in cfgs:
         gen = BG(max_num_items=ni, max_num_ems=ne, split_num_same_items=same)
@@ -956,6 +1036,7 @@ def _connector_solved_ok(G, A, start, target, solved):
 
 
 def run_connector_randomwalk(ctx, G, A, nkeys, symbolic):
+    _fresh()
     from jumanji.environments.routing.connector.generator import RandomWalkGenerator as RW
     gen = RW(G, A)
     name = f"Connector.RandomWalkGenerator[{G}x{G}a{A}]"
@@ -1006,8 +1087,8 @@ def run_connector_randomwalk(ctx, G, A, nkeys, symbolic):
 
     for aid in range(min(A, 3)):
         req, ens = make(aid)
-        ctx.prove(f"{name}._initialize_starts_and_first_move[agent {aid}]", (KEY0, jnp.zeros((N,), jnp.int32)), ens, req,
-                  targets=[RW._initialize_starts_and_first_move, RW._available_cells, RW._adjacent_cells, RW._is_cell_free, RW._is_cell_doubling_back])
+        _prove(ctx, f"{name}._initialize_starts_and_first_move[agent {aid}]", (KEY0, jnp.zeros((N,), jnp.int32)), ens, req,
+                  targets=[RW._initialize_starts_and_first_move, RW._available_cells, RW._adjacent_cells, RW._is_cell_free, RW._is_cell_doubling_back], workers=3)
 
 
 # ======================================================================================================================
@@ -1033,10 +1114,11 @@ def run_sliding(ctx, g, L):
                 "C10.blank_inside_grid_where_recorded": (r >= 0) & (r < g) & (c >= 0) & (c < g) & (s.puzzle[jnp.clip(r, 0, g - 1), jnp.clip(c, 0, g - 1)] == 0),
                 "C10.solvable_by_the_inversion_parity_criterion": solvable(s.puzzle, r),
                 "C10.step_count_zero": s.step_count == 0,
-                "canary.puzzle_is_the_goal": jnp.all(s.puzzle == goal)}
+                "canary.step_count_is_one": s.step_count == 1}   # (sampler outcomes inside the scan cannot be pinned per iteration in a replay)
 
-    ctx.prove(name, (KEY0,), ens, targets=[RW.__call__, RW._make_random_move, RW._swap_tiles])
+    _prove(ctx, name, (KEY0,), ens, targets=[RW.__call__, RW._make_random_move, RW._swap_tiles])
     # default walk length (100 moves): bounded, native
+    _fresh()
     n = 200
     gen2 = RW(g, 100)
     st = jax.jit(jax.vmap(gen2))(jax.vmap(jax.random.PRNGKey)(jnp.arange(n)))
@@ -1062,15 +1144,15 @@ def run_rubiks(ctx, n, L):
             cube = U.rotate_cube(cube, acts[t])
         return {"C10.cube_is_reached_from_the_solved_cube_by_legal_moves": jnp.all(st.cube == cube),
                 "C10.scramble_actions_in_range": (acts >= 0) & (acts < nA),
-                "C10.every_colour_on_exactly_n_squared_stickers": jnp.stack([jnp.sum(st.cube == col) == n * n for col in range(6)]),
                 "C10.step_count_zero": st.step_count == 0,
                 "canary.cube_is_solved": U.is_solved(st.cube)}
 
-    ctx.prove(name, (KEY0,), ens, targets=[SG.__call__, SG.generate_cube, SG.generate_actions_for_scramble, U.scramble_solved_cube], merge_over=8)
+    _prove(ctx, name, (KEY0,), ens, targets=[SG.__call__, SG.generate_cube, SG.generate_actions_for_scramble, U.scramble_solved_cube], merge_over=8)
     _not_constant(ctx, name, SG(n, 10), lambda s_: s_.cube, [SG.__call__], keys=8)
 
 
 def run_mmst_bounded(ctx, cfgs, nkeys):
+    _fresh()
     from jumanji.environments.routing.mmst.generator import SplitRandomGenerator as G
     from jumanji.environments.routing.mmst.constants import EMPTY_NODE
     for cfg in cfgs:
@@ -1080,11 +1162,13 @@ def run_mmst_bounded(ctx, cfgs, nkeys):
         st = jax.jit(jax.vmap(gen))(jax.vmap(jax.random.PRNGKey)(jnp.arange(nkeys)))
         adj, types, todo, pos = (np.asarray(x) for x in (st.adj_matrix, st.node_types, st.nodes_to_connect, st.positions))
         parts = np.array_split(np.arange(nN), A)       # the documented split: agent i's sub-graph
-        bad = []
+        bad, bad_par = [], []
         for k in range(nkeys):
             a = adj[k] != 0
+            par = {"node_degree_at_most_max_degree": bool(a.sum(axis=1).max() <= deg), "number_of_edges_as_configured": int(a.sum()) // 2 == nE}
+            if not all(par.values()):
+                bad_par.append({"key": f"PRNGKey({k})", "max_degree_found": int(a.sum(axis=1).max()), "edges_found": int(a.sum()) // 2, **par})
             res = {"adjacency_symmetric_no_self_loops": bool(np.array_equal(a, a.T) and not np.any(np.diag(a))),
-                   "degree_at_most_max_degree": bool(a.sum(axis=1).max() <= deg), "num_edges_as_configured": int(a.sum()) // 2 == nE,
                    "nodes_to_connect_distinct_in_range": len(set(todo[k].ravel().tolist())) == A * per and bool(np.all((todo[k] >= 0) & (todo[k] < nN))),
                    "node_types_mark_exactly_the_nodes_to_connect": all(set(np.nonzero(types[k] == i)[0].tolist()) == set(todo[k][i].tolist()) for i in range(A))
                    and int((types[k] == EMPTY_NODE).sum()) == nN - A * per,
@@ -1107,6 +1191,8 @@ def run_mmst_bounded(ctx, cfgs, nkeys):
             if not all(res.values()):
                 bad.append({"key": f"PRNGKey({k})", **res})
         ctx.bounded_check(f"{name}/C10.graph_symmetric_loop_free_and_split_instance_solvable", nkeys, len(bad), f"native run on PRNGKey(0..{nkeys - 1})", bad[0] if bad else None)
+        ctx.bounded_check(f"{name}/C10.advertised_parameters_max_degree_and_num_edges_honoured", nkeys, len(bad_par), f"native run on PRNGKey(0..{nkeys - 1})",
+                          {**bad_par[0], "n_failing": len(bad_par)} if bad_par else None)
         _not_constant(ctx, name, gen, lambda s_: s_.adj_matrix, [G.__call__], keys=4)
 
 
@@ -1137,9 +1223,9 @@ def tasks(tier):
     # ---- 2. entities on distinct free cells
     for (G, A) in (((3, 2), (4, 3), (2, 2)) if q else ((3, 2), (4, 3), (2, 2), (5, 4), (6, 6))):
         out[f"Connector.UniformRandomGenerator[{G}x{G}a{A}]"] = (run_connector_uniform, {"G": G, "A": A})
-    for kw in (({"G": 6, "A": 2, "F": 2}, {"G": 5, "A": 3, "F": 1, "L": 3}, {"G": 8, "A": 20, "F": 3, "merge_over": 8, "nkeys": 2000}) if q else
+    for kw in (({"G": 6, "A": 2, "F": 2}, {"G": 5, "A": 3, "F": 1, "L": 3}, {"G": 8, "A": 20, "F": 3, "merge_over": 8, "nkeys": 2000, "focus": LBF_FOCUS}) if q else
                ({"G": 6, "A": 2, "F": 2}, {"G": 5, "A": 3, "F": 1, "L": 3}, {"G": 6, "A": 2, "F": 2, "coop": True}, {"G": 7, "A": 4, "F": 3},
-                {"G": 8, "A": 20, "F": 3, "merge_over": 8, "nkeys": 20000})):
+                {"G": 8, "A": 20, "F": 3, "merge_over": 8, "nkeys": 20000, "focus": LBF_FOCUS})):
         out["LBF.RandomGenerator[g%da%df%dl%d%s]" % (kw["G"], kw["A"], kw["F"], kw.get("L", 2), "coop" if kw.get("coop") else "")] = (run_lbf, dict(kw))
     for cfg in (((1, 3, 1, 1, 1, 2), (1, 3, 1, 2, 1, 2), (2, 1, 2, 3, 1, 1)) if q else ((1, 3, 1, 1, 1, 2), (1, 3, 1, 2, 1, 2), (2, 1, 2, 3, 1, 1), (2, 3, 1, 4, 1, 4))):
         out["RobotWarehouse.RandomGenerator[%d,%d,%d,a%d,s%d,q%d]" % cfg] = (run_rware, {"cfg": cfg})
@@ -1152,6 +1238,8 @@ def tasks(tier):
         out[f"maze_utils.stack[max{N},feat{Fe}]"] = (run_stack, {"N": N, "Fe": Fe})
     for (R, C) in (((3, 3), (4, 5)) if q else ((3, 3), (4, 5), (5, 4), (5, 7))):
         out[f"maze_utils.split[{R}x{C}]"] = (run_split, {"R": R, "C": C})
+    for (R, C) in (((2, 2), (3, 3), (4, 5), (5, 5)) if q else ((2, 2), (3, 3), (4, 5), (5, 4), (5, 5), (5, 7), (7, 5), (4, 6), (6, 4), (2, 5))):
+        out[f"maze_utils.generate_maze[{R}x{C}]"] = (run_maze_unwound, {"R": R, "C": C})
     out["maze_utils.random_even_odd"] = (run_random_parity, {})
     sizes = ((3, 3), (5, 7), (7, 5), (4, 6), (6, 4), (2, 2), (2, 5), (10, 10)) if q else ((3, 3), (5, 7), (7, 5), (4, 6), (6, 4), (2, 2), (2, 5), (5, 2), (10, 10), (9, 12), (15, 15), (16, 11))
     out["maze_utils.connectivity[bounded]"] = (run_maze_connectivity, {"sizes": sizes, "nkeys": 200 if q else 1000})
@@ -1176,8 +1264,38 @@ def tasks(tier):
     return out
 
 
-CONFIG_BOUND = "sizes enumerated per generator (see task ids); keys / sampler outcomes unbounded for the proved obligations"
-NOT_VERIFIED = []
-ASSUMPTIONS = ["jax.random sampler contracts (jxv/stubs.py): randint in range, uniform in [lo,hi), choice lands on p>0 / replace=False distinct, permutation is a permutation"]
-LEVEL_TEXT = ""
-LEVEL_NOTE = ""
+CONFIG_BOUND = ("sizes enumerated per generator (listed in the task ids: e.g. TSP 3,4; CVRP 3,4; MultiCVRP c6v2; Knapsack 3,5; GraphColoring 3,4; Minesweeper 2x2..4x3; JobShop 2x2x2x2, 3x2x3x3; "
+                "Snake 3x3,3x4,4x3; 2048 2,3; Tetris 4x4,5x4; Connector 2..4; LBF g5,g6,g8; RobotWarehouse tiny; Maze/Cleaner generators up to 7x5 with generate_maze as a boundary; "
+                "generate_maze completely unwound 2x2..5x5 quick / ..7x5 thorough; FlatPack 1x2,2x2; SlidingTile 2x2,3x3 with 3 moves; Rubik 2,3); keys / sampler outcomes / symbolic "
+                "mazes, stacks, chambers, databases unbounded for the proved obligations; the bounded stand-ins state their key ranges")
+NOT_VERIFIED = [
+    "sizes outside the enumerated configurations (jaxprs are shape-monomorphic)",
+    "maze connectivity beyond the completely unwound sizes: function-level contracts (stack LIFO laws, random_even/odd, split_horizontally/vertically) are proved for all values, "
+    "the global connectivity of bigger mazes is a bounded flood-fill stand-in only",
+    "Connector RandomWalkGenerator / MMST SplitRandomGenerator / BinPack RandomGenerator / SlidingTile with the default 100 moves: solvability is a bounded stand-in on real keys "
+    "(the generator's own solved grid / own sub-graph split / generate_solution is checked as the witness); not proved for all keys",
+    "BinPack RandomGenerator symbolic proof (while loop over float splits) dropped: not attempted in the quick tier, bounded native check instead; BinPack CSVGenerator needs a user file: not checked",
+    "RubiksCube: 'every colour on n^2 stickers' dropped from the generator problem (counting clause 25-45 s each); it follows from C17 (every move is a proved bijection of stickers) and "
+    "the proved clause 'the cube is reached from the solved cube by legal moves'",
+    "Sokoban Toy/SimpleSolve levels: well-formedness only (solvability would need a Sokoban solver); DeepMind / HuggingFace dataset generators need a download: not checked",
+    "JobShop ToyGenerator's advertised optimal makespan (8) is not checked; PacMan maze connectivity is not checked",
+    "MultiCVRP: floats are reals in the encoding; the all-zero-demand draw (0/0 in the demand normalisation, probability 10^-6) is outside the model",
+    "samplers inside lax.scan bodies cannot be pinned per iteration in a counterexample replay (engine limitation): such problems use constant canaries / a contract boundary on the scanned callee",
+]
+ASSUMPTIONS = ["jax.random sampler contracts (jxv/stubs.py): randint in [lo,hi), uniform in [lo,hi), choice lands on p>0 when some p>0 (any index otherwise), choice(replace=False) distinct "
+               "and on p>0 when enough entries are positive, permutation is a permutation",
+               "jax.random.split is a deterministic function of the key (same key expression => same sampler outcome symbols in generator and contract)",
+               "floats as reals (coordinates, MultiCVRP demand normalisation)",
+               "generate_maze as a contract boundary inside the Maze / Cleaner generator proofs (its post-condition is itself proved, completely unwound, at the small sizes)"]
+LEVEL_TEXT = ("Proof (Engine J, all keys = all sampler outcomes, per enumerated size) for the light generators: TSP/CVRP/MultiCVRP boxes, demands <= capacity, depot demand 0; Knapsack [0,1); "
+              "GraphColoring symmetric and loop-free; Minesweeper exactly num_mines distinct mines in range, board unexplored; JobShop ids/durations/prefix mask/>=1 op; Snake, 2048, Tetris "
+              "initial states; Connector uniform, LBF, RobotWarehouse entities on distinct cells; Maze/Cleaner start, target, origin free given the maze; generate_maze COMPLETELY unwound with "
+              "a reachability fix-point in the formula: every generated maze is fully connected (2x2..5x5 quick); stack LIFO laws, random_even/odd range and parity, split_horizontally/"
+              "vertically (one spanning wall on an odd line, one passage at an even offset, frame, sub-chambers partition the chamber) for ALL mazes/stacks/chambers; SlidingTile permutation + "
+              "inversion-parity solvability, Rubik cube = legal moves from the goal; Sudoku DatabaseGenerator returns a database puzzle unchanged (symbolic database).  Exhaustive native "
+              "enumeration of finite generators: all 11 000 shipped Sudoku puzzles are conflict-free AND have a solution; toy/dummy/ASCII generators satisfy their advertised invariants "
+              "(FlatPack toys by exact-cover search, BinPack toy by box arithmetic).  Existential 'not constant in the key': a native witness pair per random generator.")
+LEVEL_NOTE = ("Expected failures on the pinned tree (clauses kept as the property states them): Connector RandomWalkGenerator (DESIGN section 8 #11) in the symbolic single-step obligation and "
+              "on real keys; FlatPack RandomFlatPackGenerator produces block sets WITHOUT any complete placement (proved clause refuted with a confirmed replay; exact-cover search on real keys, "
+              "e.g. 2x2 PRNGKey(6)); LBF RandomGenerator(8, 20 agents, 3 food) spawns an agent on a food cell (PRNGKey(225)); MMST SplitRandomGenerator exceeds max_degree and has fewer distinct "
+              "edges than num_edges.  Bounded stand-ins are labelled and never counted as proved.")
